@@ -6,6 +6,7 @@ import NLE.Model.HB
 import NLE.Model.Conn
 import NLE.Model.ValAcc
 import NLE.Model.Lease
+import NLE.Model.Cand
 /-
   `trace-begin` … lines … `trace-end`: parse a harness trace, run the world model and the monitors,
   answer one line:  `T <events> <parse-error-line|0> <store-mismatches> <fails>` followed by tab-separated
@@ -85,6 +86,15 @@ def accLease (evs : List TEv) : Option (Nat × String) :=
       | .error msg => some (k, msg)
   go {} 1 evs
 
+def accCand (evs : List TEv) : Option (Nat × String) :=
+  let rec go (s : Cand.State) (k : Nat) : List TEv → Option (Nat × String)
+    | [] => none
+    | e :: es =>
+      match Cand.step s e with
+      | .ok s' => go s' (k + 1) es
+      | .error msg => some (k, msg)
+  go {} 1 evs
+
 def sanitize (s : String) : String :=
   String.ofList (s.toList.map fun c => if c == '\t' || c == '\n' || c == '|' then ' ' else c)
 
@@ -94,7 +104,7 @@ def TraceAcc.finish (a : TraceAcc) : String :=
   let store := m.w.storeMismatch.reverse.map fun s => s!"STORE|store-model|0|{sanitize s}"
   let cov := m.w.cov.map fun (k, n) => s!"COV|{k}|{n}|"
   -- implementation models: does the model accept (= can it produce) this trace?
-  let acc := [("Own", accOwn a.evs.toList), ("Life", accLife a.evs.toList), ("HB", accHB a.evs.toList), ("Conn", accConn a.evs.toList), ("Val", accVal a.evs.toList), ("Lease", accLease a.evs.toList)]
+  let acc := [("Own", accOwn a.evs.toList), ("Life", accLife a.evs.toList), ("HB", accHB a.evs.toList), ("Conn", accConn a.evs.toList), ("Val", accVal a.evs.toList), ("Lease", accLease a.evs.toList), ("Cand", accCand a.evs.toList)]
   let accItems := acc.map fun (name, r) =>
     match r with
     | none => s!"ACC|{name}|0|ok"
